@@ -147,10 +147,14 @@ impl ConditionalEventHandler for Recorder {
         };
         if RENDER_SYNC.load(std::sync::atomic::Ordering::Relaxed) {
             self.sync.lock().unwrap().push(format!(
-                "{}/{}/{}",
+                "{}/{}/{}/{}/{}/{}/{}",
                 enc_text(ctx.line()),
                 ctx.pos(),
-                ctx.hint_text().map_or("n".to_string(), enc_text)
+                ctx.hint_text().map_or("n".to_string(), enc_text),
+                mode,
+                key,
+                n,
+                enc_bool(positive)
             ));
             unsafe { libc::write(1, SYNC_MARK.as_ptr() as *const libc::c_void, SYNC_MARK.len()) };
         }
@@ -280,7 +284,7 @@ pub struct RunResult {
     pub snapshots: Vec<usize>, // output length after each key token (one-key-at-a-time mode)
     pub validator_calls: Vec<String>,
     pub printer_msgs: usize,
-    pub sync_states: Vec<String>, // C02: `line/pos/hint` per callback (only with RENDER_SYNC)
+    pub sync_states: Vec<String>, // C02: `line/pos/hint/mode/keys/n/positive` per callback (only with RENDER_SYNC)
 }
 
 pub fn outcome_of(r: &std::thread::Result<rustyline::Result<String>>) -> String {
